@@ -13,11 +13,12 @@ THEOREMS = ["C07_numerals_bounded", "C07_hex_numerals_bounded", "C07_saturation_
             "C07_builtin_rhythm_inert", "C07_lex_keeps_rhythm_table", "C07_reader_suffix", "C07_lex_terminates_refuted",
             "C07_lex_rhythm_recursion_diverges",
             "C07_compile_never_panics", "C07_lex_never_panics", "C07_exec_never_panics", "C07_compile_outcomes",
-            "C07_compile_fuel_partial", "C07_exec_fuel_partial"]
+            "C07_compile_fuel_partial", "C07_exec_fuel_partial",
+            "C07_compile_fuel_loops", "C07_exec_fuel_loops"]
 RULE = ("every sequence of up to k lexical fragments from the language's alphabet (k=2 quick over the full alphabet, "
         "k=3 over a reduced alphabet; thorough k=3 full), random junk text incl. non-ASCII, grammar programs with arguments "
         "dropped/duplicated/out of range (every command name of the implementation's table x 16 argument shapes, every reservation head x "
-        "reservation command x argument shape, each followed by notes; every character of U+0000..U+00FF and of the range boundaries the code tests in 22..32 one-character contexts), truncations and mutations of /repo/samples, programs of the extended "
+        "reservation command x argument shape, each followed by notes; integer edge values (isize::MIN / MAX reached by arithmetic) under every binary operator and as command values, signs in front of empty numerals wherever a number is read; every character of U+0000..U+00FF and of the range boundaries the code tests in 22..32 one-character contexts), truncations and mutations of /repo/samples, programs of the extended "
         "pipeline fragment (mmlgen.ext_program: controllers, bends, RPN, reservations, PLAY, Str); non-trivial = distinct input of >= 2 fragments")
 TRUSTED = ["watchdog: a case that makes no progress for 15 s counts as a hang",
            "stack overflow / allocation failure / 64-bit overflow checks live in the runtime: observed on the implementation (debug build), not provable on the model"]
@@ -145,9 +146,33 @@ def char_context_stream(quick):
     return out
 
 
+def overflow_stream():
+    """integer edge values reached by arithmetic (numerals saturate at 2^31-1, so they are built by squaring), every binary
+    operator between every pair of them, as values of commands too; signs in front of empty / odd numerals after every
+    place a number is read"""
+    pre = "Int P=2147483647+1; Int Q=P*P; Int MN=Q*2; Int MX=MN-1; Int M1=0-1; Int Z0=0; Int ONE=1; "
+    vals = ["MN", "MX", "Q", "M1", "Z0", "ONE", "P", "(0-MX)", "(MN+1)"]
+    out = [pre + "Print(MN) Print(MX)"]
+    for a in vals:
+        for b in vals:
+            for op in ["+", "-", "*", "/", "%", "<", "==", "&", "|"]:
+                out.append(pre + "Print(%s%s%s) c" % (a, op, b))
+    for a in vals:
+        for cmd in ["l%%%s c", "v%s c", "o%s c", "q%s c", "t%s c", "TR(%s) c", "Tempo(%s) c", "y7,%s c", "c%%%s", "n%s", "TIME(%s)", "[%s c]",
+                    "PB(%s) c", "@%s c", "KeyShift(%s) c", "Int X=%s; X++; X++; Print(X)", "Int X=%s; X--; X--; Print(X)", "Print(0-%s)",
+                    "Print(MID({abc},%s,2))", "Print(CHR(%s))", "Print(Random(%s))", "r%%%s c", "TimeBase(%s) c", "v.onTime(0,127,%s) c"]:
+            out.append(pre + cmd.replace("%s", a).replace("%%", "%"))
+    odd = ["-$", "-0x", "-$z", "-0xz", "+-$", "-", "--1", "-0o", "-0o9", "$", "0x", "-$-1", "-$FFFFFFFFFFFFFFFFFFFF"]
+    for o in odd:
+        for ctxt in ["c,,,%s", "c4,,,%s", "n60,,,,%s", "c,%s", "c,,%s", "v%s c", "l%s c", "o%s c", "q%s c", "t%s c", "y1,%s c", "TR(%s) c",
+                     "@%s c", "c%%%s", "r%s", "[%s c]", "Tempo(%s) c", "PB(%s) c", "TIME(%s:%s:%s) c", "Print(%s)", "KF%s(c)", "'ce'%s", "'ce',%s"]:
+            out.append(ctxt.replace("%s", o).replace("%%", "%"))
+    return out
+
+
 def run(ctx):
     rng = ctx.rng
-    srcs = grammar_stream(rng, ctx.tier == "quick") + char_context_stream(ctx.tier == "quick")
+    srcs = overflow_stream() + grammar_stream(rng, ctx.tier == "quick") + char_context_stream(ctx.tier == "quick")
     ctx.dist["grammar_and_char_streams"] = len(srcs)
     if ctx.tier == "quick":
         srcs += ["".join(p) for p in itertools.product(FRAGS, repeat=1)]
